@@ -470,6 +470,7 @@ pub fn run(tier: Tier) -> i32 {
         }
     }
     rep.set("rule", json!("Templates: 11 (rect with variable size and class, rect with text and rx, circle, text, polyline, line, rect with transform, group with two children, group with text and class variable, symbol, group containing a nested reuse) parameterised by $s/$label/$c in geometry, text and class; placement of the template in <specs>, <defs>, inline before, or in <specs> after its uses; instantiation sequences of length 1-2 (thorough 3) from a pool of 12 reuse forms (bindings, id, class list, style, x/y, single x, relative xy, zero x/y, attribute override, extra transform). The twin replaces each <reuse> by the template written out by hand: bound variables substituted, id/style from the reuse, classes = template + reuse + template id, x/y on shapes or translate on groups, symbol -> g, nested reuse inlined; a <specs> template is dropped from the twin altogether. Both documents are executed; canonical whitespace-insensitive event streams (class as a set, pure translations summed) must be equal, and no <specs>/<reuse> may be rendered. Non-trivial = both Ok and equal."));
+    rep.set("also_later", json!("Rounds 3-5 added pairs: placed templates with dw / dh, defaults chosen by the instance's classes, instances with content evaluated once, group templates with local variables, template text content (shape, text, with <title>), dx / dy on the reuse of a rendered group, x / y in units."));
     rep.set("also", json!("Also 7 hand-written (reuse, written-out) pairs: templates carrying their own dw / dh or centre, a line template given by end points, a <text> template, reuse of a reuse (placed, and inside <specs>), <defaults> applying to an instance."));
     let st = run_space(cases.len(), |i| {
         let (ti, pl, si) = cases[i];
